@@ -107,6 +107,21 @@ def binding_matrix(max_params=3, rng=None, sample=None):
         yield Block(pre + post + [Asg("r", call), Core("print", [Id("r")]), Id("r")])
 
 
+def binding_all_lists(max_params=3):
+    """Every valid parameter list of <= max_params parameters x every argument count 0..n+2, parenthesised call,
+    first all-matching argument combination: complete over the arity dimension."""
+    for n in range(0, max_params + 1):
+        for kinds in itertools.product(PARAM_KINDS, repeat=n):
+            if not valid_param_list(kinds):
+                continue
+            for nargs in range(0, n + 3):
+                combo = arg_combos(kinds, nargs)[0]
+                reset_ids()
+                args = [(mk() if mk is not None else Int(10 * (i + 1))) for i, mk in enumerate(combo)]
+                yield Block([Asg("c", Int(-5)), Asg("k", Int(-6)), Asg("f", build_fn(kinds)), Asg("c", Int(100)),
+                             Asg("k", Int(200)), Asg("r", App(Id("f"), args)), Core("print", [Id("r")]), Id("r")])
+
+
 # ---- B. closures ----------------------------------------------------------------------------------------
 class CallGen(gen_core.Gen):
     """Extends the core statement generator with function definitions, calls, closures and generators."""
